@@ -34,6 +34,7 @@ SELECTORS = ('subset', 'subsample', 'subset_pattern', 'subsample_pattern')
 
 
 def run(ctx, obs):
+    loo_boundary(ctx, obs, 'inference.crossvalsets.sets_leave_one_out_rdm')
     for _q in ('sets_k_fold', 'sets_k_fold_rdm', 'sets_k_fold_pattern'):
         kfold_partition(ctx, obs, 'inference.crossvalsets.' + _q)
     from ..rules import sweeps
@@ -488,3 +489,66 @@ def _lin_nai(e, nsrc, aname, iname, gname=None, kname=None):
         sg = 1 if isinstance(e.op, ast.Add) else -1
         return tuple(a + sg * b for a, b in zip(l, r))
     return None
+
+
+# ------------------------------------------------------------------------------------------- LOO boundary
+def _lin_len(e):
+    """(a, b) with e = a * L + b where L is the one len(...) term of e; None if not of that form"""
+    if isinstance(e, ast.Constant) and isinstance(e.value, int) and not isinstance(e.value, bool):
+        return (0, e.value)
+    if isinstance(e, ast.Call) and _leaf(e.func) == 'len':
+        return (1, 0)
+    if isinstance(e, ast.Attribute) and e.attr in ('size',):
+        return (1, 0)
+    if isinstance(e, ast.BinOp) and isinstance(e.op, (ast.Add, ast.Sub)):
+        l, r = _lin_len(e.left), _lin_len(e.right)
+        if l is None or r is None:
+            return None
+        sg = 1 if isinstance(e.op, ast.Add) else -1
+        return (l[0] + sg * r[0], l[1] + sg * r[1])
+    return None
+
+
+def min_count(test: ast.expr):
+    """smallest L (number of groups) for which a comparison `f(L) OP g(L)` (linear, increasing in L) holds; None if not decidable"""
+    if not (isinstance(test, ast.Compare) and len(test.ops) == 1):
+        return None
+    l, r = _lin_len(test.left), _lin_len(test.comparators[0])
+    if l is None or r is None:
+        return None
+    a, b = l[0] - r[0], l[1] - r[1]          # a*L + b OP 0
+    op = test.ops[0]
+    if isinstance(op, (ast.Lt, ast.LtE)):
+        a, b = -a, -b
+        op = ast.Gt() if isinstance(op, ast.Lt) else ast.GtE()
+    if a <= 0 or not isinstance(op, (ast.Gt, ast.GtE)):
+        return None
+    import math
+    # a*L + b > 0  ->  L > -b/a ;  >= : L >= -b/a
+    x = -b / a
+    return math.floor(x) + 1 if isinstance(op, ast.Gt) else math.ceil(x)
+
+
+def loo_boundary(ctx, obs, q, rule='BOUND'):
+    """leave-one-out needs two groups: with exactly two, each is predicted from the other.  The fallback "only one group" arm (train =
+    test = everything) must therefore be taken for one group only - a guard that also sends two groups there makes the lower noise
+    ceiling an in-sample value."""
+    prog = ctx.prog
+    f = prog.func(q)
+    r = ctx.dep.result(q)
+    from ..rules.common import Inliner
+    inl = Inliner(r, None, tuple(f.params), stop=tuple(d.var for d in r.defs.values()
+                                                     if d.kind == 'assign' and isinstance(d.rhs, ast.Call) and _leaf(d.rhs.func) in ('unique', 'add_pattern_index')))
+    guards = [g for g in f.node.body if isinstance(g, ast.If) and g.orelse and any(isinstance(n, ast.For) for n in g.body)]
+    if not guards:
+        obs.unk(rule, q, 'leave-one-out is used from two groups on', 'guard between the loop and the single-group fallback not found',
+                where(prog, f, f.node))
+        return
+    g = guards[0]
+    n0 = min_count(inl.inline(g.test))
+    con = 'leave-one-out is used from two groups on (the single-group fallback only for one group)'
+    if n0 is None:
+        obs.unk(rule, q, con, f'`{norm(g.test)}` is not a linear comparison of the number of groups', where(prog, f, g))
+    else:
+        obs.check(n0 == 2, rule, q, con, f'`{norm(g.test)}` first holds for {n0} groups: with two groups the fallback makes training, test '
+                  f'and ceiling sets all equal to the full data', '', where(prog, f, g))
